@@ -393,6 +393,8 @@ def check(P, R, tier):
 LEVEL = ("Decides the case-by-case agreement of the separately written parser and printer switches for every specifier: a case on "
          "both sides, the same scratch field, padding read where padding is printed, accepted limits containing the printable "
          "range, digit-printer widths within the helper's capacity, and the 12-hour clock table folded over the 24 hours.  "
+         "On top of that dates (RF2-fmt, 16 formats) and times (RF2-tfmt, 10 formats incl. every hour / AM-PM pairing) are printed and parsed "
+         "back by folding the routines themselves on grids of days and of times.  "
          "Equality parse(format(x)) = x for all values and format strings is NOT decided: it also depends on the computed "
          "digits, on adjacent variable-width fields and on the calendar guess from the parsed field set.")
 RULE = "obligation = one specifier of one family (pair / field / pad / limits), one digit-printer call, the AM/PM table"
